@@ -86,9 +86,15 @@ def stripOrKeep (a : Arg) (u : U) : Except Err Rat :=
 
 /-- `_remove_quantity_output`: with a unit-carrying forward transform the results are converted to the
 frame's declared units; otherwise they are taken as they are -/
+def isQty : Arg → Bool
+  | .qty _ _ => true
+  | .bare _ => false
+
+/-- (since fix e0cbc30: quantities are stripped whenever there are any - a transform whose parameters carry no units may still
+return some, e.g. from a look-up table of quantities, next to plain numbers) -/
 def removeQuantityOutput (usesQ : Bool) (frameU : List U) (res : List Arg) : Except Err (List Rat) :=
-  if usesQ then zipM stripOrKeep res frameU
-  else res.mapM unBare   -- a quantity would otherwise escape through the values interface
+  if usesQ || res.any isQty then zipM stripOrKeep res frameU
+  else res.mapM unBare
 
 /-- `utils.get_values(units, *args)` -/
 def getValues (frameU : List U) (args : List Arg) : Except Err (List Rat) :=
